@@ -201,10 +201,28 @@ def count_tabstops(items, mult=1):
     return n
 
 
+def used_names(items, names=None, attrs=None):
+    names = set() if names is None else names
+    attrs = set() if attrs is None else attrs
+    for it in items:
+        if not it.get('group'):
+            if it['name']:
+                names.add(it['name'])
+            for a, _kind, _val in it['attrs']:
+                attrs.add(a)
+        used_names(it['children'], names, attrs)
+    return names, attrs
+
+
+def counted_meta(items):
+    names, attrs = used_names(items)
+    return {'mode': 'auto', 'expect': count_tabstops(items), 'names': sorted(names), 'attrs': sorted(attrs)}
+
+
 def gen_markup_counted(rng):
     t = Tree(rng, explicit=False, allow_text=True)
     items = t.root()
-    return print_items(items), {'mode': 'auto', 'expect': count_tabstops(items)}
+    return print_items(items), counted_meta(items)
 
 
 def gen_markup_explicit(rng):
@@ -212,7 +230,7 @@ def gen_markup_explicit(rng):
     items = t.root()
     abbr = print_items(items)
     if t.fields_written == 0:
-        return abbr, {'mode': 'auto', 'expect': count_tabstops(items)}
+        return abbr, counted_meta(items)
     return abbr, {'mode': 'explicit'}
 
 
